@@ -109,45 +109,7 @@ theorem wf_StreamFeatures : StreamFeatures.WF := by decide
 theorem wf_ResultSetQuery : ResultSetQuery.WF := by decide
 theorem wf_FastToken : FastToken.WF := by decide
 theorem wf_Sasl2Success : Sasl2Success.WF := by decide
-/-- `QXmppResultSetReply` once `<count/>` is read like the other integers (fixes/C01-resultset-count-and-unset.diff) -/
-theorem wf_ResultSetReply_fixed : ResultSetReply.WF := by decide
-
-/-! ## defect of today's code -/
-
-/-- **`QXmppResultSetReply` does not keep "count unset".** `parse` reads `<count/>` with `toInt()` and no
-fallback, so the reply `{first = "a", count unset}` serializes to
-`<set xmlns="http://jabber.org/protocol/rsm"><first>a</first></set>` and reads back with `count = 0`.  The
-round-trip statement is false for the schema of the code as it is. -/
-theorem C01_defect_resultsetreply_count :
-    ¬ (∀ v, ResultSetReplyCode.Canon v → ResultSetReplyCode.decode (ResultSetReplyCode.encode v) = v) := by
-  intro h
-  have h1 := h [.record [.record [.opt none, .str "a".toList], .absent, .record [.opt none]]] (by decide)
-  have h2 : ResultSetReplyCode.decode (ResultSetReplyCode.encode
-      [.record [.record [.opt none, .str "a".toList], .absent, .record [.opt none]]])
-      = [.record [.record [.opt none, .str "a".toList], .absent, .record [.opt (some 0)]]] := by
-    rfl
-  rw [h2] at h1
-  simp at h1
-
-/-- …and its own output form does not survive parse-then-serialize: `<count>0</count>` appears -/
-theorem C01_defect_resultsetreply_own_form :
-    ¬ (∀ v, ResultSetReplyCode.Canon v →
-        ResultSetReplyCode.norm (ResultSetReplyCode.encode v) = some (ResultSetReplyCode.encode v)) := by
-  intro h
-  have h1 := h [.record [.record [.opt none, .str "a".toList], .absent, .record [.opt none]]] (by decide)
-  have e1 : ResultSetReplyCode.encode
-      [.record [.record [.opt none, .str "a".toList], .absent, .record [.opt none]]]
-      = .elem "x".toList [] [.elem "set".toList [("xmlns".toList, nsRsm)]
-          [.elem "first".toList [] [.text "a".toList]]] := by rfl
-  have e2 : ResultSetReplyCode.norm (.elem "x".toList [] [.elem "set".toList [("xmlns".toList, nsRsm)]
-          [.elem "first".toList [] [.text "a".toList]]])
-      = some (.elem "x".toList [] [.elem "set".toList [("xmlns".toList, nsRsm)]
-          [.elem "first".toList [] [.text "a".toList], .elem "count".toList [] [.text "0".toList]]]) := by rfl
-  rw [e1, e2] at h1
-  simp at h1
-
-/-- the generic theorems do not apply to the schema of the code as it is: it is not well-formed -/
-theorem not_wf_ResultSetReplyCode : ¬ ResultSetReplyCode.WF := by decide
+theorem wf_ResultSetReply : ResultSetReply.WF := by decide
 
 /-! ## non-vacuity: concrete values meeting the hypotheses -/
 
@@ -166,6 +128,8 @@ example : ¬ SmAck.Canon [.nat 4294967296] := by decide
 /-- the value that did not survive before /repo e3c2af8 (`tls0rtt = true`) is a canonical value of the
 repaired class, so `decode_encode` now covers it -/
 example : FastFeature.Canon [.list [], .flag true] := by decide
+/-- likewise "count unset" of a result-set reply (lost before /repo 4885fb5) -/
+example : ResultSetReply.Canon [.record [.record [.opt none, .str "a".toList], .absent, .record [.opt none]]] := by decide
 example : ¬ Sasl2Failure.Canon [.opt none, .record [.str []]] := by decide
 /-- Base64 bodies: any byte string, including NUL and 0xFF; a mandatory non-empty list -/
 example : Sasl2Continue.WF ∧ Sasl2Continue.Canon
